@@ -50,9 +50,38 @@ def octet_tables(ctx, P):
                   any('encryptor' in u for u in users) and any('decryptor' in u for u in users), table=users)
 
 
+def builder_conversions_keep_settings(ctx, P):
+    """The message builder changes its encryption type state by value (`Builder<.., NoEncryption>` -> `Builder<.., EncryptionSeipdV1>`).
+    Whatever was configured before the switch - compression, chunk size, data mode, signature type and above all the registered
+    SIGNERS - must be carried over: every field of the resulting builder other than the one whose type changes derives from the same
+    field of the consumed builder.  (A conversion that starts from a fresh default silently drops the signers registered before it.)"""
+    adt = ctx.f.adts.get('composed::message::builder::Builder')
+    if adt is None:
+        ctx.missing(P + ':builder:conversion:anchor', 'composed::message::builder::Builder not found')
+        return
+    fields = [f_['n'] for f_ in adt['vars'][0]['fields']]
+    n = 0
+    for p, r in sorted(ctx.f.bodies.items()):
+        if not p.startswith('composed::message::builder::Builder::') or r['kind'] != 'AssocFn' or r['nargs'] < 1:
+            continue
+        t1, t0 = r['locals'][1]['ty'] or '', r['locals'][0]['ty'] or ''
+        if not (t1.startswith('composed::message::builder::Builder<') and t0.startswith('composed::message::builder::Builder<')) or t1 == t0:
+            continue
+        b = ctx.wrap(r)
+        n += 1
+        og = b.operand_origins({'l': 0, 'pr': []})
+        # the field whose type differs between argument and result is the one being replaced
+        lost = [f_ for f_ in fields if ('field:Builder.%s' % f_) not in og and f_ != 'encryption']
+        ctx.check('%s:builder:conversion-keeps-settings:%s' % (P, p.split('::')[-1]), 'origin',
+                  '%s carries every setting of the builder it consumes over into the one it returns' % p.split('::')[-1],
+                  not lost, function=p, missing=None if not lost else 'not carried over: %s (what was configured before the call is silently dropped)' % ', '.join(lost))
+    ctx.floor(P + ':builder:conversion:floor', 'type-state conversions of the message builder', n, 2)
+
+
 def run(ctx):
     P = 'C01'
     octet_tables(ctx, P)
+    builder_conversions_keep_settings(ctx, P)
     c17.s17_1(ctx, P)
     c17.s17_3(ctx, P)
     c17.partial_emitters(ctx, P)
